@@ -133,7 +133,8 @@ impl<RS: Read + Seek> Seek for SeekableChain<RS> {
                 if offset <= 0 {
                     self.seek_abs(self.max_pos.saturating_sub(offset.unsigned_abs()))
                 } else {
-                    Ok(self.max_pos)
+                    // beyond the end: position at the end (as SeekFrom::Start beyond the end does)
+                    self.seek_abs(self.max_pos)
                 }
             }
         }
